@@ -182,6 +182,7 @@ def translate(c):
         elif t == 'rem': out.append(rib.rem(o[1], o[2]))
         elif t == 'drop': out.append(rib.drop(o[1]))
         elif t == 'llgr': out.append(rib.restale_llgr(o[1]))
+        elif t == 'policy': out.append([('policy', o[1])])
         else: out.append([(t,)])
     return out
 
@@ -286,11 +287,11 @@ def label_coq(l):
     if t == 'free': return '(RibFree %s %s)' % (cN(l[1]), cbool(l[2]))
     if t == 'llgr': return '(LlgrFlip %s %s)' % (cN(l[1]), cbool(l[2]))
     return {'deliver': 'Deliver', 'flush': 'Flush', 'register': 'Register', 'refresh': 'Refresh',
-            'unregister': 'Unregister'}[t]
+            'unregister': 'Unregister'}[t] if t != 'policy' else '(PolicyChange %s)' % cN(l[1])
 
 
 OPC = {'ins': 0, 'rem': 1, 'drop': 2, 'llgr': 3, 'deliver': 4, 'flush': 5, 'register': 6, 'refresh': 7,
-       'unregister': 8}
+       'unregister': 8, 'policy': 9}
 
 # what the code under verification currently does (see Model/ExportTx.v): how PendingTx
 # names an entry, and whether dump/refresh truncate before the visibility filters
@@ -417,7 +418,11 @@ class Prop:
                 ops.append(('flush',))
             elif x < 0.97:
                 ops.append(('refresh',))
-            elif x < 0.985:
+            elif x < 0.975:
+                ops.append(('policy', rng.choice([0, 1, 1])))
+                if rng.random() < 0.8:
+                    ops.append(('refresh',))      # soft reset out
+            elif x < 0.988:
                 ops.append(('register',))
             else:
                 ops.append(('unregister',))
@@ -426,7 +431,10 @@ class Prop:
         # settle: deliver everything, flush
         pend = sum(1 for o in ops if o[0] in ('ins', 'rem')) + 4 * sum(1 for o in ops if o[0] in ('drop', 'llgr'))
         if rng.random() < 0.9:
-            ops += [('deliver',)] * pend + [('flush',)]
+            ops += [('deliver',)] * pend
+            if any(o[0] == 'policy' for o in ops):
+                ops.append(('refresh',))          # soft reset out with the channel drained
+            ops.append(('flush',))
         return ops
 
     def gen_cases(self, rng, tier):
@@ -556,11 +564,18 @@ class Prop:
         if obs == [-1]:
             return 'panic in the export path'
         established = False
+        dirty = False
         for k, o in enumerate(obs):
             if o[0] == 4:
                 established = True
             if o[0] == 7:
                 established = False
+            if o[0] == 8:
+                dirty = True        # policy replaced: judged again after the soft reset out
+            if o[0] in (4, 5):
+                dirty = False
+            if dirty:
+                continue
             if not established:
                 continue            # the property speaks about established neighbours
             if o[0] == 3:
